@@ -339,9 +339,13 @@ func (c *Compiler) compileForStatement(stmt *parser.ForStmt) error {
 	}
 
 	// Patch the loop condition jump and the break statements to jump here.
-	c.instructions.changeOperand(jumpToEnd, endOfLoop)
+	if err := c.instructions.changeOperand(jumpToEnd, endOfLoop); err != nil {
+		return err
+	}
 	for _, breakPos := range c.breaks {
-		c.instructions.changeOperand(breakPos, endOfLoop)
+		if err := c.instructions.changeOperand(breakPos, endOfLoop); err != nil {
+			return err
+		}
 	}
 
 	// reset the break list
@@ -372,7 +376,9 @@ func (c *Compiler) compileIfStatement(stmt *parser.IfStmt) error {
 	// "jump" to the next instruction
 	stmtEndPos := len(c.instructions)
 	for _, jumpPos := range jumpPositions {
-		c.instructions.changeOperand(jumpPos, stmtEndPos)
+		if err := c.instructions.changeOperand(jumpPos, stmtEndPos); err != nil {
+			return err
+		}
 	}
 	return nil
 }
@@ -399,7 +405,9 @@ func (c *Compiler) compileConditionalBlock(block *parser.ConditionalBlock) (int,
 	// rewrite the JumpPlaceholder in the OpJumpOnFalse so that it will jump to the end
 	// of the statement when the condition is not truthy anymore
 	afterBlockPos := len(c.instructions)
-	c.instructions.changeOperand(jumpOnFalsePos, afterBlockPos)
+	if err := c.instructions.changeOperand(jumpOnFalsePos, afterBlockPos); err != nil {
+		return 0, err
+	}
 	return jumpPos, nil
 }
 
@@ -426,11 +434,15 @@ func (c *Compiler) compileWhileStatement(stmt *parser.WhileStmt) error {
 	// rewrite the JumpPlaceholder in the OpJumpOnFalse so that it will
 	// jump to the end of the statement when the condition is false
 	afterBlockPos := len(c.instructions)
-	c.instructions.changeOperand(jumpOnFalsePos, afterBlockPos)
+	if err := c.instructions.changeOperand(jumpOnFalsePos, afterBlockPos); err != nil {
+		return err
+	}
 	// rewrite the JumpPlaceholder in the break statements to jump
 	// to the end of the loop
 	for _, breakPos := range c.breaks {
-		c.instructions.changeOperand(breakPos, afterBlockPos)
+		if err := c.instructions.changeOperand(breakPos, afterBlockPos); err != nil {
+			return err
+		}
 	}
 	// reset the break list
 	c.breaks = outOfScopeBreaks
